@@ -166,9 +166,11 @@ fn roundtrip_event(r: &mut Rng, k: usize) -> Value {
     }).collect();
     let lin = |r: &mut Rng| -> Value {
         let mut terms = vec![];
-        for id in &ids { if r.chance(2, 3) { terms.push(json!({"id": id, "c": q(r.range(-6, 6), 2)})); } }
+        // now and then a tiny dyadic magnitude (odd / 2^20..2^26): its shortest decimal form needs up to 17 significant digits
+        let tiny = |r: &mut Rng| -> Value { let p = 2 * r.range(-8, 7) + 1; q(p, 1i64 << r.range(20, 26)) };
+        for id in &ids { if r.chance(2, 3) { let c = if r.chance(1, 8) { tiny(r) } else { q(r.range(-6, 6), 2) }; terms.push(json!({"id": id, "c": c})); } }
         if terms.is_empty() && r.chance(1, 2) { json!({"kind": "constant", "c": q(r.range(-4, 4), 2)}) }
-        else { json!({"kind": "linear", "terms": terms, "constant": if r.chance(1, 2) { json!([0, 1]) } else { q(r.range(-4, 4), 2) }}) }
+        else { json!({"kind": "linear", "terms": terms, "constant": if r.chance(1, 2) { json!([0, 1]) } else if r.chance(1, 8) { tiny(r) } else { q(r.range(-4, 4), 2) }}) }
     };
     let nonlinear = |r: &mut Rng| -> Value { json!({"kind": "quadratic", "rows": [ids[0]], "columns": [ids[ids.len() - 1]], "values": [q(r.range(1, 3), 1)], "linear": []}) };
     let bad = r.below(10);
